@@ -611,7 +611,20 @@ SKELETONS = [
         ("drop.lock", r"drop\s*\(\s*lock\s*\)")]),
     ("src/iterator/backend.rs", "add_signal@wake_readers", [
         ("store", r"\.store\s*\(\s*slot\s*,\s*signal\s*,\s*act\s*\)"), ("wake", r"\.wake_readers\s*\(\s*\)"),
-        ("if", r"\bif\b"), ("register", r"register_sigaction\s*\(")]),
+        ("if", r"\bif\b"), ("register", r"register_sigaction\s*\("),
+        # the action owns what it uses (a strong reference): nothing is upgraded - or let go of - inside a delivery
+        ("weak", r"\b(?:downgrade|upgrade)\s*\(")]),
+    # the origin exfiltrator hands out the extraction of the queued record, nothing more
+    ("src/iterator/exfiltrator/origin.rs", "load", [
+        ("raw.load", r"self\s*\.0\s*\.load\s*\(\s*slot\s*,\s*signal\s*\)"),
+        ("map.extract", r"\.map\s*\(\s*\|\s*info\s*\|\s*unsafe\s*\{\s*Origin::extract\s*\(\s*&info\s*\)\s*\}\s*\)"),
+        ("other.extract", r"Origin::extract\s*\((?!\s*&info\s*\)\s*\}\s*\))"), ("touch", r"\b(?:match|if)\b|\.process\s*=|\.cause\s*=")]),
+    # Origin::extract: the process is read iff the cause has one; the only exception is guarded by the macOS cfg
+    ("src/low_level/siginfo.rs", "extract@sighook_signal_cause", [
+        ("cause", r"sighook_signal_cause\s*\(\s*info\s*\)"), ("has_process", r"if\s+cause\.has_process\s*\(\s*\)"),
+        ("process.extract", r"Process::extract\s*\(\s*info\s*\)"),
+        ("macos.guard", r"cfg!\s*\(\s*target_os\s*=\s*\"macos\"\s*\)\s*&&\s*process\.pid\s*==\s*0\s*&&\s*process\.uid\s*==\s*0"),
+        ("filter", r"\.filter\s*\("), ("signo", r"info\.si_signo")]),
     ("src/low_level/signal_details.rs", "emulate_default_handler", [
         ("kill.stop.raise", r"if\s+signal\s*==\s*SIGSTOP\s*\|\|\s*signal\s*==\s*SIGKILL\s*\{\s*return\s+low_level::raise\s*\(\s*signal\s*\)"),
         ("lookup.exact", r"\.find\s*\(\s*\|d\|\s*d\.signal\s*==\s*signal\s*\)"),
